@@ -39,7 +39,8 @@ FILE_BYTES = {"t/a.txt": b"A" * 2500, "t/b.html": worlds.HTML, "t/c.txt.gz": wor
 
 
 def contents(maxlines):
-    out = []
+    # the empty file, and files that hold nothing but line ends, first
+    out = [(), (6,), (6, 6)]
     for n in range(1, maxlines + 1):
         for combo in itertools.product(range(len(LINES)), repeat=n):
             if LINES[combo[-1]].strip() == b"":
@@ -50,6 +51,8 @@ def contents(maxlines):
 
 def sidecar_bytes(combo, crlf=False):
     nl = b"\r\n" if crlf else b"\n"
+    if not combo:
+        return b""
     return nl.join(LINES[i] for i in combo) + nl
 
 
@@ -177,8 +180,16 @@ def judge_item(w, item, sidecars, handlers, decorated=False):
         extra = [n for n in names if n not in (b"INFO", b"ADMIN", b"VIEWS")]
         if len(extra) != len(set(extra)):
             bad.append((form, "duplicate-block", "blocks %r" % names))
-        if got_blocks != want_blocks:
-            bad.append((form, "sidecar-blocks", "sidecar blocks %r, the sidecar files say %r" % (got_blocks, want_blocks)))
+        # a sidecar holding nothing printable (empty, or line ends only) says nothing: its block may be absent or hold
+        # blank lines; every other block, and the rest of the listing, must be there all the same
+        want_here = dict(want_blocks)
+        for bn in [b for b, ls in want_blocks.items() if not any(l.strip() for l in ls)]:
+            if bn in got_blocks and any(l.strip() for l in got_blocks[bn]):
+                bad.append((form, "sidecar-blocks", "the sidecar for %r holds no text but the block carries %r" % (bn, got_blocks[bn])))
+            got_blocks.pop(bn, None)
+            want_here.pop(bn, None)
+        if got_blocks != want_here:
+            bad.append((form, "sidecar-blocks", "sidecar blocks %r, the sidecar files say %r" % (got_blocks, want_here)))
         views[form] = mine
     # + form for documents
     if kind == "file" or item in ("zipmember", "message"):
